@@ -3,53 +3,120 @@ import PySMT.Proofs.C08Model
 import PySMT.Proofs.C08Sound
 import PySMT.Proofs.C08AgreeTop2
 import PySMT.Proofs.C08WT5
+import PySMT.Proofs.C08Model2
+import PySMT.Proofs.C08Capture
+import PySMT.Proofs.C08Script3
+import PySMT.Proofs.C08LogicSwap
 /-!
 # C08 — SMT-LIB import never misreads: the property theorems
 
 Model: `Impl/Parser.lean` (pySMT's reading of an S-expression: `readTerm`, `cmd`, `script`), over the regenerated
 operator table `Gen/ParserOps.lean`. Reference: the standard reader `Spec/SmtlibText.lean` (`Std.readStd`,
-`Std.applyTheory`). The agreement of the model with `SmtLibParser.get_script` is tested on every run (K, literal
-comparison of whole command lists), the agreement of the *implementation* with the standard reader is searched on every
-run (S, two independent oracles).
+`Std.applyTheory`, `Std.stepStd`, `Std.runStd`). The agreement of the model with `SmtLibParser.get_script` is tested on
+every run (K, literal comparison of whole command lists), the agreement of the *implementation* with the standard reader
+is searched on every run (S, two independent oracles).
+
+## What these theorems are about, and what they are not about
+
+* **S-expressions, not text.** Every theorem starts from the S-expression the STANDARD lexer (`Spec/Sexp.lean`) makes of
+  the text. pySMT's own `Tokenizer` (parser.py) is NOT modelled and not pinned by a hash: where it differs from the
+  standard lexer (`\|` inside bars, annotation values read character by character, the tolerant numerals `01`, `1/3`,
+  `1_0`, `٣` of `Fraction()`/`int()`, known findings F16/F16b) only the search (S) looks. The carriage return was not
+  white space and did not end a comment (a command was silently dropped): repaired in /repo (P16).
+* **`parse_model` is not modelled** (no Lean definition mentions it); model files are covered by S only.
+* **Direction.** The property reads "whenever the parser accepts …". The soundness theorems below have the additional
+  hypothesis that the STANDARD gives the text a meaning (`hstd : Std.readStd env [] s = .ok u`): they are "both accept ⇒
+  same sort and value", and in fact the stronger "standard accepts ⇒ parser accepts and returns `mkNorm u`". The half
+  "parser accepts, standard rejects" — "rejected with an error, never silently read as something else" — has only these
+  results: `unknown_symbol_rejected`, `unknown_symbol_rejected_nested` (unknown names below applications),
+  `let_repeated_variable`, `assert_bool`, and `readTerm_wt_partial`, which is about pySMT's type checker and NOT about
+  SMT-LIB well-sortedness: `(= r 1)` with `r : Real`, `(/ 1 3)` in an integer logic are accepted (F15e and relatives are
+  known findings). The capture F17b (below) is a text the parser accepts and misreads while the reference refuses it.
+* **Same evaluator on both sides (common mode).** `Std.readStd` returns a pySMT-shaped `Term`, and "the standard's value"
+  is `eval I` of it: the semantic clauses of every operator (signs of `bvsdiv`/`bvsrem`, division by zero, rotation modulo
+  the width, strings, arrays) sit in the single file `Core/Eval.lean`, shared by both sides. What is established here is:
+  spelling ↦ operator, argument and index order, literal decoding, scoping. Whether `eval` matches the theory files of the
+  standard is not the subject of this property (C04/C05 tie `eval` to pySMT; the reference solvers tie it to the theories).
 
 ## What is proved
 
-* `parserOps_std` — every token of `self.interpreted` is bound to the constructor the standard prescribes
-  (`decide` over the regenerated table, minus the explicit exclusions `Table.knownNonStd`);
-* the repaired behaviours as theorems about the model: simultaneous `let` (F13/F13b), binders shadow definitions (F14),
-  unknown names are rejected inside terms (F15), `assert` takes Boolean terms (F15c), bound variables keep their
-  order (F31);
-* `readTerm_wt_partial` — **accepted ⇒ well-typed**: every term `readTerm` returns is accepted by pySMT's checker
-  (`Term.wt`), for *every* S-expression (all branches of the model: literals, operators, `let`, quantifiers, annotations,
-  `(_ …)`, `(as …)`, `to_bv`), in every environment whose bound terms are well-typed. `_partial`: (a) applications of
-  `define-fun`'d functions are excluded (`EnvOK`: the substitution of F17), (b) `NoNullary s`: no application to zero
-  arguments `(f)` — a NEW FINDING of this proof: for a declared `f : Int → Int` the parser accepts `(f)` and returns the
-  bare function symbol (`Function(f, [])` returns `vname`), which is not a term; `wt_counterexample` is the witness.
+* `parserOps_std` — every token of `self.interpreted` is bound to the handler name the hand-written table
+  `Table.expected` (Proofs/C08Table.lean) prescribes, minus the explicit exclusions `Table.knownNonStd`: a `decide` over
+  the regenerated table, i.e. a check of NAMES. That the handler of that name builds the operator the standard prescribes
+  is part of the agreement theorem for the operators of the fragment, and a compiled `#guard` for the rest, not a theorem.
+* the repaired behaviours as theorems about the model:
+  - simultaneous `let` (F13/F13b): `let_simultaneous` (all names already bound), `let_outer_kept` (ANY binding list:
+    while the binding terms are read, every name that had a meaning before the `let` keeps it), `let_repeated_variable`;
+  - binders shadow definitions (F14): `binder_shadows` (one binder), `binder_shadows_all`, `binder_lookup` (lists of
+    binders: the last binder of a name wins, any other name keeps its meaning);
+  - unknown names are rejected inside terms (F15): `unknown_symbol_rejected` for one atom under `notLiteralStrict` (the
+    first round's `notLiteral` was too weak for the CODE: `notLiteral "1_0"` is provable and Python reads `|1_0|` as the
+    integer 10; `notLiteralStrict` excludes the tokens Python's `Fraction()`/`int()`/string branch accept and the model's
+    `literal` does not: a leading `"`, `_` in a token that starts like a number, blanks, non-ASCII digits),
+    `unknown_symbol_rejected_nested` lifts it to every enclosing nest of operator/function applications. Since the repair
+    P14 (`atom()` cached EVERY result: after `(get-value (foo))` the text `(= s foo)` was read as `s = "foo"`) the
+    literal cache of the code holds literals only, and the model, which has no cache, is faithful here; the cache is still
+    observable when `set-logic` comes after a numeral (known, F15d);
+  - `assert` takes Boolean terms (F15c): `assert_bool`;
+  - bound variables (F31): `quantifier_order` — one variable per binder IN TEXTUAL ORDER, parameterless, named as written
+    or as written followed by a number (the fresh symbol `_get_quantified_var` makes when the manager knows the name with
+    another sort); `quantifier_order_exact` — `vs.map name = bindNames bs` when no name is bound twice and the manager
+    does not know the names. (The earlier `quantifier_order` proved only `vs.length = bs.length`.)
+* `readTerm_wt_partial` — **accepted ⇒ well-typed for pySMT's checker** (`Term.wt`), for *every* S-expression, in every
+  environment whose bound terms are well-typed. `_partial`: (a) applications of `define-fun`'d functions are excluded
+  (`EnvOK`: the substitution of F17), (b) `NoNullary s`: no application to zero arguments `(f)` — finding P12: for a
+  declared `f : Int → Int` the parser accepts `(f)` and returns the bare function symbol; `wt_counterexample`.
 * `readTerm_agree_partial`, `readTerm_sound_frag_partial`, `readTerm_accept_sound_partial` — **soundness against the
-  standard on the fragment `Agree.FragS`** (decidable; `Proofs/C08AgreeFrag.lean`): numerals (typed by the logic), decimals,
-  `#b`/`#x`, `(_ bvN w)`, string literals without escapes, names; `not and or => xor = distinct ite + * - / <= < >= >
-  to_real`, all bit-vector operators (`concat bvnot bvneg bvand … bvsge bvcomp bv2nat`, `(_ extract i j)`,
+  standard on the fragment `Agree.FragS`** (decidable; `Proofs/C08AgreeFrag.lean`): numerals (typed by the logic),
+  decimals, `#b`/`#x`, `(_ bvN w)`, string literals without escapes, names; `not and or => xor = distinct ite + * - / <=
+  < >= > to_real`, all bit-vector operators (`concat bvnot bvneg bvand … bvsge bvcomp bv2nat`, `(_ extract i j)`,
   `(_ zero_extend k)`, `(_ sign_extend k)`, `(_ repeat k)`, `(_ rotate_left k)`, `(_ rotate_right k)`), `select store
-  ((as const σ) v)`, the string operators,
-  applications of declared functions, `let` (simultaneous, against the standard's substitution semantics) and
-  `forall`/`exists`, nested arbitrarily; side condition `Agree.RotOK env [] s` (decidable, `Proofs/C08AgreeRot.lean`; trivially
-  true for a text without rotations): every rotation amount is at most the width of its operand — pySMT refuses larger
-  rotations (a type error), the standard does not. In corresponding environments (`Agree.Corr env [] Γ`: explicit, one direction —
-  the parser may know more names; `penv_corresponds`: `Agree.penvOf env` is one), **whenever the standard reader gives the
-  text a meaning `u`, the parser model accepts it and returns exactly `mkNorm u`** — `u` after the three normalisations
-  `FormulaManager`'s constructors perform (`Not(Not x)`, `ToReal(c)`, `Div` by a constant; `mkNorm_id_of_normal`: the
-  identity on terms in the manager's normal form) — a well-formed term of the sort of `u` that has the value of `u` under
-  every well-formed interpretation (`Proofs/C08NormSem.lean`; `standard_reading_wf_partial`: the standard only builds
-  terms pySMT's checker accepts, `Proofs/C08StdWF*.lean`). In particular: whenever both readers accept, same sort, same
-  meaning (`readTerm_accept_sound_partial`).
+  ((as const σ) v)`, the string operators, applications of declared functions, `let` and `forall`/`exists`, nested
+  arbitrarily. In corresponding environments (`Agree.Corr env [] Γ`), **whenever the standard reader gives the text a
+  meaning `u`, the parser model accepts it and returns exactly `mkNorm u`** — `u` after the three normalisations
+  `FormulaManager`'s constructors perform (`Not(Not x)`, `ToReal(c)`, `Div` by a constant; `mkNorm_id_of_normal`) — a
+  well-formed term of the sort of `u` with the value of `u` under every well-formed interpretation (`mkNorm_meaning`,
+  `standard_reading_wf_partial`).
   `_partial`, i.e. NOT in the fragment and covered by K/S only: chainable/left-associative forms with more than two
-  arguments of `=> = distinct - / < <= > >= bvxor` (pySMT rejects them or builds a different but equivalent term), `(- t)`
-  for a non-constant `t` (the standard reads `0 - t`, pySMT `-1 * t`), `bvsmod` (pySMT's own encoding), annotations `(! t …)`, `(as x σ)`, parametric sorts, `div mod
-  abs`, the F11 spellings `str.to_int`/`str.from_int`, and the commands (`script`). The known findings stay explicit
-  hypotheses: F16/F16b (tolerant numerals, bars dropped): every bound name must satisfy `Agree.pnameOK` (`Corr.names`,
-  `FragS`'s `bindNameOK`; witness `f16_excluded`); F17 (capture when applying a definition): `Corr.nodefs`; the fresh
-  renaming of a bound variable whose name the manager knows with another sort: `FragS`'s `ρ` condition with
-  `Agree.MgrLe`.
+  arguments of `=> = distinct - / < <= > >= bvxor`, `(- t)` for a non-constant `t`, `bvsmod`, annotations `(! t …)` (so
+  `:named` too), `(as x σ)`, parametric sorts, `div mod abs`, the F11 spellings, `define-fun` (reading AND applying).
+  **Further restrictions of `FragS`, `RotOK` and `Corr` (all decidable, all visible in the statements only through these
+  names, therefore listed here):**
+  - `bvLitOK`: in `(_ bvN w)` the value fits the width, `N < 2^w` (pySMT refuses larger values, the standard reduces);
+  - `minusOK`/`minusArgOK`: unary minus only of a numeral or decimal literal; `(- (- 1))`, `(- x)` are outside;
+  - `RotOK`: every rotation amount is at most the width of its operand (pySMT refuses larger rotations);
+  - `bindNameOK`, `letNameOK`: a bound name is `pnameOK` (not spelled like a literal: F16/F16b; not `(` or `)`: P03) and
+    is not the name of a declared sort or sort alias; `fragVars`: a quantified name the manager knows with another sort
+    is excluded through `ρ` and `Agree.MgrLe` (the fresh renaming);
+  - `Corr.funTok`: a declared function WITH PARAMETERS must not be named like a token of the parser's table: after
+    `(declare-fun pow (Int Int) Int)` the code reads `(pow 2 3)` with its built-in handler (known finding P17, the model
+    does the same); such environments are outside every agree/sound theorem;
+  - `Corr.nodefs` (and `envOK`): **no `define-fun` at all** — every agree/sound theorem is vacuous for an environment
+    with one definition (F17: applying a definition substitutes with capture);
+  - `Corr.logic`: the parser's numeral flag agrees with the standard's reading of numerals. After `(set-logic QF_BV)`
+    (also QF_UF, QF_AX, QF_ABV, QF_AUFBV, BV) it does NOT (pySMT would read a numeral as a Real there,
+    `Agree.logicOK_false_examples`). For those logics the theorems are available for NUMERAL-FREE texts
+    (`Agree.numFreeS`: no numeral in term position; the indices of `(_ bv1 8)`, `(_ extract 3 1)`, `(_ BitVec 8)` are
+    fine): `readTerm_sound_numfree_partial`, `assert_after_decls_numfree`, instance `qf_bv_script`.
+* **F17b is a hypothesis, made explicit**: `capture_witness` — for `(let ((y x)) (exists ((x Int)) (> x y)))` with
+  declared `x : Int`, `FragS`, `RotOK`, `Corr` and `MgrLe` hold, the parser model returns `exists x. x < x`, and the
+  standard reader answers the capture error, so `hstd` is what keeps the capture out of the soundness theorems;
+  `capture_changes_meaning`: the returned term is false where the text's meaning is true. `Capture.NoCapture` is a
+  decidable side condition mirroring the capture check of `Std.rd` (false for the witness, true for the examples of this
+  file); `noCapture_excludes_partial` proves `NoCapture ⇒ no capture error` for atoms only (full statement:
+  `Capture.NoCaptureExcludes`); "`FragS ∧ NoCapture ∧ well-sorted ⇒ hstd`" is NOT proved.
+* **Script level** (`Proofs/C08Script1-3.lean`; replaces the artificial environment `penvOf env`, whose formula manager
+  is empty — a state no run reaches; `penv_corresponds` is kept): `decls_refine` — for command lists over `set-logic`,
+  `declare-sort` (arity 0, two-atom form), `declare-fun`, `declare-const`, parameterless `define-sort`, `set-info`,
+  `set-option` with the decidable side condition `declCmdsOK` (names `nameOK1`, a function with parameters not named
+  like a parser token, sorts of the fragment, one name — one symbol `ρ`, `logicOK` for `set-logic`): whenever the
+  STANDARD accepts the list from a state the parser environment refines (`Refines`: `Corr`, `MgrLe`, sort symbols of
+  arity 0; `refines_init`: the initial states), the parser model accepts it, builds the expected commands, and the final
+  environment refines the standard's final state. `decls_refine_both` is the reviewer's form (both accept ⇒ `Corr`
+  and `MgrLe` preserved). `assert_after_decls`, `terms_after_decls`: soundness of `assert`, `get-value`,
+  `check-sat-assuming` after such a prefix, from `PEnv.init` as `get_script` starts. NOT covered: `define-fun`,
+  `push`/`pop` (C09's `script_cmds_roundtrip` covers them for printer-generated scripts), `declare-sort` of arity > 0 or
+  after an assertion, OMT commands.
 * `readTerm_sound_partial` — the first round's theorem (propositional fragment, truth values), kept.
 -/
 namespace PySMT.Props.C08
@@ -91,35 +158,93 @@ theorem let_repeated_variable (Γ : PEnv) (x : String) (e : Sexp) (bs : List Sex
     rdLetBinds Γ seen delayed (.list [.atom x, e] :: bs) = .error .syntax :=
   rdLetBinds_dup Γ x e bs seen delayed h
 
-/-- **Binders shadow definitions (F14).** -/
+/-- **Simultaneous let, arbitrary binding lists (F13).** `letEnvs` records, with the recursion of `rdLetBinds` itself,
+the environment in which each binding term is read (`let_envs_faithful`: it accepts exactly the lists `rdLetBinds`
+accepts). In each of them every name that had a meaning before the `let` still has THAT meaning — a binding never sees
+an earlier binding of the same `let` through a name of the enclosing scope — and the logic is unchanged. (A name without
+a previous meaning is bound at once: the known extension F13c.) -/
+theorem let_outer_kept (bs : List Sexp) (Γ : PEnv) (seen : List String) (delayed : List (String × Parser.Val))
+    (tr : List PEnv) (h : letEnvs Γ seen delayed bs = .ok tr) :
+    tr.length = bs.length ∧
+      ∀ Γi ∈ tr, Γi.intArith = Γ.intArith ∧ ∀ n, (lookup n Γ.binds).isSome → lookup n Γi.binds = lookup n Γ.binds :=
+  Parser.let_outer_kept bs Γ seen delayed tr h
+
+/-- `letEnvs` accepts exactly the binding lists the model's `rdLetBinds` accepts -/
+theorem let_envs_faithful (bs : List Sexp) (Γ : PEnv) (seen : List String) (delayed : List (String × Parser.Val)) :
+    (rdLetBinds Γ seen delayed bs).toBool = (letEnvs Γ seen delayed bs).toBool :=
+  letEnvs_ok_iff bs Γ seen delayed
+
+/-- **Binders shadow definitions (F14)**, one binder. -/
 theorem binder_shadows (Γ : PEnv) (x : String) (ty : Sexp) (Γ' : PEnv) (vs : List Sym)
     (h : rdQuantBinds Γ [] [.list [.atom x, ty]] = .ok (Γ', vs)) :
     ∃ s, vs = [s] ∧ lookup (pyTok x) Γ'.binds = some (.term (Term.sym s)) :=
   rdQuantBinds_shadows Γ x ty Γ' vs h
 
-/-- **Unknown names are rejected inside terms (F15).** -/
+/-- **Binders shadow definitions (F14)**, lists of binders: when no name is bound twice, every bound name denotes its
+bound variable in the body, whatever it meant in the enclosing scope (declared symbol, definition, let variable). -/
+theorem binder_shadows_all (Γ : PEnv) (bs : List Sexp) (Γ' : PEnv) (vs : List Sym)
+    (h : rdQuantBinds Γ [] bs = .ok (Γ', vs)) (hn : (bindNames bs).Nodup) :
+    ∀ p ∈ (bindNames bs).zip vs, lookup p.1 Γ'.binds = some (.term (Term.sym p.2)) :=
+  Parser.binder_shadows_all Γ bs [] Γ' vs vs h (by simp) hn
+
+/-- … and in general: a name denotes the variable of the LAST binder of that name, and what it denoted in the enclosing
+scope when no binder has that name. -/
+theorem binder_lookup (Γ : PEnv) (bs : List Sexp) (Γ' : PEnv) (vs : List Sym)
+    (h : rdQuantBinds Γ [] bs = .ok (Γ', vs)) (n : String) :
+    lookup n Γ'.binds =
+      (match ((bindNames bs).zip vs).reverse.find? (fun p => p.1 == n) with
+       | some p => some (.term (Term.sym p.2))
+       | none => lookup n Γ.binds) :=
+  Parser.binder_lookup Γ bs [] Γ' vs vs h (by simp) n
+
+/-- **Unknown names are rejected inside terms (F15).** `notLiteralStrict` (Proofs/C08Model2.lean): neither the model's
+`literal` nor Python's `Fraction()`/`int()`/string branch reads the token as a literal. -/
 theorem unknown_symbol_rejected (Γ : PEnv) (tok : String)
-    (hb : lookup (pyTok tok) Γ.binds = none) (hl : notLiteral (pyTok tok)) :
+    (hb : lookup (pyTok tok) Γ.binds = none) (hl : notLiteralStrict (pyTok tok)) :
     rdVal Γ false (.atom tok) = .error .syntax :=
-  Parser.unknown_symbol_rejected Γ tok hb hl
+  Parser.unknown_symbol_rejected_strict Γ tok hb hl
+
+/-- **… and below applications (F15, nested).** `hasUnknownArg Γ.binds s`: `s` is an application — head any token that
+is not one of the binder/annotation keywords (an operator of the table, a declared or defined function, an indexed
+operator `((_ extract 3 1) …)`) — one of whose arguments is an unknown name (not bound, `notLiteralStrict`) or is such an
+application itself. The parser model never accepts such a text, whatever the state of the formula manager. -/
+theorem unknown_symbol_rejected_nested (s : Sexp) (Γ : PEnv) (h : hasUnknownArg Γ.binds s = true)
+    (lone : Bool) (v : Parser.Val) (σ : MgrSt) : rdVal Γ lone s ≠ .ok (v, σ) :=
+  Parser.unknown_symbol_rejected_nested s Γ h lone v σ
 
 /-- **Known residue (F15b):** as a whole command argument the unknown name is a String constant. This is the
 witness why "malformed text is always rejected" is *not* a theorem of the model. -/
 theorem unknown_symbol_lone_known (Γ : PEnv) (tok : String)
-    (hb : lookup (pyTok tok) Γ.binds = none) (hl : notLiteral (pyTok tok)) :
+    (hb : lookup (pyTok tok) Γ.binds = none) (hl : notLiteralStrict (pyTok tok)) :
     readTerm Γ (.atom tok) = .ok (Term.str (pyTok tok)) :=
-  Parser.unknown_symbol_lone Γ tok hb hl
+  Parser.unknown_symbol_lone Γ tok hb hl.1
 
 /-- **assert takes Boolean terms (F15c).** -/
 theorem assert_bool (Γ Γ' : PEnv) (t : Sexp) (k : Command)
     (h : cmd Γ (.list [.atom "assert", t]) = .ok (Γ', k)) : ∃ t', k = .assert t' ∧ t'.typeOf = some .bool :=
   Parser.assert_bool Γ Γ' t k h
 
-/-- **Bound variables keep their textual order (F31).** -/
+/-- **Bound variables keep their textual order (F31).** One variable per binder, in textual order; the variable of the
+binder `(x ty)` has no parameters and is called `x`, or `x` followed by a number (the fresh symbol
+`_get_quantified_var` makes when the manager knows `x` with another sort). -/
 theorem quantifier_order (Γ : PEnv) (bs : List Sexp) (Γ' : PEnv) (vs : List Sym)
-    (h : rdQuantBinds Γ [] bs = .ok (Γ', vs)) : vs.length = bs.length := by
-  obtain ⟨new, hv, hl⟩ := rdQuantBinds_order Γ bs [] Γ' vs h
-  simp [hv, hl]
+    (h : rdQuantBinds Γ [] bs = .ok (Γ', vs)) :
+    List.Forall₂ (fun b v => ∃ x ty, b = Sexp.list [Sexp.atom x, ty] ∧ v.params = [] ∧
+        (v.name = pyTok x ∨ ∃ k : Nat, v.name = pyTok x ++ natToString k)) bs vs := by
+  obtain ⟨new, hv, hf⟩ := rdQuantBinds_names Γ bs [] Γ' vs h
+  simp only [List.reverse_nil, List.nil_append] at hv
+  subst hv
+  exact hf
+
+/-- **… with exactly the written names**, when no name is bound twice and the formula manager has no symbol of one of
+the names: `vs.map name = bindNames bs` (`bindNames`: the names of the binders in textual order). -/
+theorem quantifier_order_exact (Γ : PEnv) (bs : List Sexp) (Γ' : PEnv) (vs : List Sym)
+    (h : rdQuantBinds Γ [] bs = .ok (Γ', vs)) (hn : (bindNames bs).Nodup)
+    (hfree : ∀ n ∈ bindNames bs, ∀ e ∈ Γ.mgr.symbols, e.1 ≠ n) : vs.map (·.name) = bindNames bs := by
+  obtain ⟨new, hv, hm⟩ := rdQuantBinds_names_exact bs Γ [] Γ' vs h hn hfree
+  simp only [List.reverse_nil, List.nil_append] at hv
+  subst hv
+  exact hm
 
 /-- **Soundness on the propositional fragment** (see the header for what is missing). -/
 theorem readTerm_sound_partial (env : Std.SEnv) (Γ : PEnv) (hrel : Sound.EnvRel Γ.binds env) (s : Sexp)
@@ -188,7 +313,170 @@ theorem penv_corresponds (env : Std.SEnv) (h : Agree.envOK env = true) (ρ : Lis
     Agree.Corr env [] (Agree.penvOf env) ∧ Agree.MgrLe (Agree.penvOf env).mgr ρ :=
   ⟨Agree.corr_penvOf env h, Agree.mgrLe_penvOf env ρ⟩
 
+/-! ## the capture F17b, explicit -/
+
+/-- **Witness (F17b).** `(let ((y x)) (exists ((x Int)) (> x y)))` with declared `x : Int` (`Capture.capS`,
+`Capture.capEnv`): in the fragment, `RotOK`, corresponding environments — and the parser model returns `exists x. x < x`
+while the standard reader answers the capture error. The hypothesis `hstd` of the soundness theorems is what excludes it. -/
+theorem capture_witness :
+    Agree.envOK Capture.capEnv = true ∧ Agree.FragS Capture.capEnv Capture.capρ Capture.capS = true ∧
+    Agree.RotOK Capture.capEnv [] Capture.capS = true ∧
+    Agree.Corr Capture.capEnv [] (Agree.penvOf Capture.capEnv) ∧
+    Agree.MgrLe (Agree.penvOf Capture.capEnv).mgr Capture.capρ ∧
+    readTerm (Agree.penvOf Capture.capEnv) Capture.capS =
+      .ok (Term.mkExists [Sym.var "x" .int] (.node .lt [Term.var "x" .int, Term.var "x" .int] .none)) ∧
+    Std.readStd Capture.capEnv [] Capture.capS = .error (Capture.captureMsg "y") :=
+  ⟨Capture.capture_witness.1, Capture.capture_witness.2.1, Capture.capture_witness.2.2.1, Capture.capture_witness_hyps.1,
+   Capture.capture_witness_hyps.2, Capture.capture_witness.2.2.2.1, Capture.capture_witness.2.2.2.2.1⟩
+
+/-- **The capture changes the meaning**: under the well-formed interpretation `capI` (`x = 0`, integers `{0, 1}`) the
+term the parser returns is false and the text's meaning `exists x'. x < x'` is true. -/
+theorem capture_changes_meaning :
+    Capture.capI.WF ∧ eval Capture.capI Capture.capT = .b false ∧ eval Capture.capI Capture.intendedT = .b true :=
+  Capture.capture_changes_meaning
+
+/-- the decidable side condition `NoCapture` separates the witness from the examples of this file -/
+theorem noCapture_examples :
+    Capture.NoCapture Capture.capEnv [] Capture.capS = false ∧
+    Capture.NoCapture Capture.envEx [] Capture.sEx1 = true ∧ Capture.NoCapture Capture.envEx [] Capture.sEx2 = true :=
+  ⟨Capture.noCapture_capS, Capture.noCapture_sEx1, Capture.noCapture_sEx2⟩
+
+/-- **`NoCapture` excludes the capture error — atoms only.** Full statement: `Capture.NoCaptureExcludes` (every text
+with `NoCapture` never gets the capture error from the standard reader); proved here for a single atom. The compound
+case (induction over `Std.rd` with an inequality of error messages at each error site) is open, and so is
+"`FragS ∧ NoCapture ∧ well-sorted ⇒` the standard accepts". -/
+theorem noCapture_excludes_partial (env : Std.SEnv) (sc : List Std.Binding) (tok : String) (n : String)
+    (h : Capture.NoCapture env sc (.atom tok) = true) : Std.rd env sc (.atom tok) ≠ .error (Capture.captureMsg n) :=
+  Capture.noCapture_atom_partial env sc tok n h
+
+/-- when the standard answers the capture error for a let-bound name, this is why (`lookupScope`, both directions) -/
+theorem capture_error_iff (n : String) (sc : List Std.Binding) (crossed : List Sym) :
+    (∃ e, Std.lookupScope n sc crossed = some (.error e)) ↔
+      ∃ pre t ty post, sc = pre ++ .letb n t ty :: post ∧ (∀ b ∈ pre, Std.bindingName b ≠ n) ∧
+        ∃ x, (x ∈ crossed ∨ Std.Binding.var x ∈ pre) ∧ x ∈ t.fv :=
+  Capture.lookupScope_error_iff n sc crossed
+
+/-! ## script level: declarations, then terms -/
+
+/-- the initial states correspond -/
+theorem refines_init (ρ : List (String × Sym)) : Agree.Refines ρ Std.StdState.init PEnv.init :=
+  Agree.refines_init ρ
+
+/-- **Declaration prefixes** (see the header for the fragment and `declCmdsOK`). Whenever the standard accepts the
+commands from a state the parser's environment refines, the parser model accepts them, builds the expected `Command`s, and
+the final environment refines the standard's final state. -/
+theorem decls_refine (ρ : List (String × Sym)) (cs : List Sexp) (st st' : Std.StdState) (k : Nat) (Γ : PEnv)
+    (hcs : Agree.declCmdsOK ρ st cs = true) (hstd : Std.runStdFrom st k cs = .ok st') (hr : Agree.Refines ρ st Γ) :
+    ∃ Γ', envAfter Γ cs = .ok Γ' ∧ script Γ cs = .ok (Agree.declCommands st cs) ∧ Agree.Refines ρ st' Γ' :=
+  Agree.decls_refine ρ cs st st' k Γ hcs hstd hr
+
+/-- … in the form "whenever both accept, `Corr` and `MgrLe` are preserved". -/
+theorem decls_refine_both (ρ : List (String × Sym)) (cs : List Sexp) (st st' : Std.StdState) (k : Nat) (Γ Γ' : PEnv)
+    (hcs : Agree.declCmdsOK ρ st cs = true) (hstd : Std.runStdFrom st k cs = .ok st') (hpy : envAfter Γ cs = .ok Γ')
+    (hr : Agree.Refines ρ st Γ) : Agree.Corr st'.env [] Γ' ∧ Agree.MgrLe Γ'.mgr ρ :=
+  Agree.decls_refine_both ρ cs st st' k Γ Γ' hcs hstd hpy hr
+
+/-- **`assert` after a declaration prefix**, from the parser's initial state (as `get_script` starts): whenever the
+standard accepts `cs` followed by `(assert s)`, `s` in the fragment, the parser model accepts the script and its last
+command asserts `mkNorm u` for the term `u` the standard asserted: well-formed, Boolean, same value. -/
+theorem assert_after_decls (ρ : List (String × Sym)) (cs : List Sexp) (s : Sexp) (st' st'' : Std.StdState)
+    (hcs : Agree.declCmdsOK ρ Std.StdState.init cs = true) (hrun : Std.runStd cs = .ok st')
+    (hf : Agree.FragS st'.env ρ s = true) (hro : Agree.RotOK st'.env [] s = true)
+    (hstd : Std.runStd (cs ++ [.list [.atom "assert", s]]) = .ok st'') :
+    ∃ u, Std.readStd st'.env [] s = .ok u ∧ st''.live = st'.live ++ [u] ∧
+      script PEnv.init (cs ++ [.list [.atom "assert", s]])
+        = .ok (Agree.declCommands Std.StdState.init cs ++ [.assert (Agree.mkNorm u)]) ∧
+      (Agree.mkNorm u).wf = true ∧ (Agree.mkNorm u).typeOf = some .bool ∧
+      ∀ I : Interp, I.WF → eval I (Agree.mkNorm u) = eval I u :=
+  Agree.assert_after_decls ρ cs s st' st'' hcs hrun hf hro hstd
+
+/-- **`get-value` / `check-sat-assuming` after a declaration prefix.** -/
+theorem terms_after_decls (ρ : List (String × Sym)) (cs : List Sexp) (name : String) (ts : List Sexp)
+    (st' st'' : Std.StdState) (hname : name = "get-value" ∨ name = "check-sat-assuming")
+    (hcs : Agree.declCmdsOK ρ Std.StdState.init cs = true) (hrun : Std.runStd cs = .ok st')
+    (hf : Agree.FragL st'.env ρ ts = true) (hro : Agree.RotOKL st'.env [] ts = true)
+    (hstd : Std.runStd (cs ++ [.list [.atom name, .list ts]]) = .ok st'') :
+    ∃ as, Std.rdList st'.env [] ts = .ok as ∧ st'' = st' ∧
+      script PEnv.init (cs ++ [.list [.atom name, .list ts]])
+        = .ok (Agree.declCommands Std.StdState.init cs ++ [.terms name (as.map (fun a => Agree.mkNorm a.1))]) ∧
+      ∀ a ∈ as, (Agree.mkNorm a.1).wf = true ∧ (Agree.mkNorm a.1).typeOf = some a.2 ∧ a.1.typeOf = some a.2 ∧
+        ∀ I : Interp, I.WF → eval I (Agree.mkNorm a.1) = eval I a.1 :=
+  Agree.terms_after_decls ρ cs name ts st' st'' hname hcs hrun hf hro hstd
+
+/-! ### logics without arithmetic (QF_BV, QF_UF, QF_AX, …): numeral-free texts -/
+
+/-- **Soundness relative to the script's real logic.** The parser environment corresponds to `env` up to the NAME of
+the logic (`Corr { env with logic := l }`: e.g. `l = swapLogic "QF_BV" = "QF_LRA"`, whose reading of numerals is the one of
+the parser's flag after `(set-logic QF_BV)`); for a numeral-free text the standard's reading under the real logic
+`env.logic` is what the parser returns. -/
+theorem readTerm_sound_numfree_partial (env : Std.SEnv) (l : String) (ρ : List (String × Sym)) (Γ : PEnv)
+    (hc : Agree.Corr { env with logic := l } [] Γ) (hm : Agree.MgrLe Γ.mgr ρ) (s : Sexp)
+    (hn : Agree.numFreeS s = true) (hf : Agree.FragS env ρ s = true) (hro : Agree.RotOK env [] s = true) (u : Term)
+    (h : Std.readStd env [] s = .ok u) :
+    ∃ t, readTerm Γ s = .ok t ∧ t = Agree.mkNorm u ∧ t.wf = true ∧ t.typeOf = u.typeOf ∧
+      ∀ I : Interp, I.WF → eval I t = eval I u :=
+  Agree.readTerm_sound_numfree env l ρ Γ hc hm s hn hf hro u h
+
+/-- **`set-logic L` (ANY name, no `logicOK`), declarations, then the assertion of a numeral-free text**, from the
+initial states: the conclusion of `assert_after_decls`. (`declCmdsOKL`: `declCmdsOK` of the declarations in the
+standard's state after `set-logic`; `declHead`: the command is a declaration, `set-info` or `set-option`.) -/
+theorem assert_after_decls_numfree (ρ : List (String × Sym)) (tok : String) (ds : List Sexp) (s : Sexp)
+    (st' st'' : Std.StdState) (hds : ds.all Agree.declHead = true)
+    (hok : Agree.declCmdsOKL ρ Std.StdState.init tok ds = true)
+    (hrun : Std.runStd (Agree.setLogicCmd tok :: ds) = .ok st') (hn : Agree.numFreeS s = true)
+    (hf : Agree.FragS st'.env ρ s = true) (hro : Agree.RotOK st'.env [] s = true)
+    (hstd : Std.runStd (Agree.setLogicCmd tok :: ds ++ [.list [.atom "assert", s]]) = .ok st'') :
+    ∃ u, Std.readStd st'.env [] s = .ok u ∧ st''.live = st'.live ++ [u] ∧
+      script PEnv.init (Agree.setLogicCmd tok :: ds ++ [.list [.atom "assert", s]])
+        = .ok (Agree.declCommands Std.StdState.init (Agree.setLogicCmd tok :: ds) ++ [.assert (Agree.mkNorm u)]) ∧
+      (Agree.mkNorm u).wf = true ∧ (Agree.mkNorm u).typeOf = some .bool ∧
+      ∀ I : Interp, I.WF → eval I (Agree.mkNorm u) = eval I u :=
+  Agree.assert_after_decls_numfree ρ tok ds s st' st'' hds hok hrun hn hf hro hstd
+
+/-- **A QF_BV script**: `(set-logic QF_BV) (declare-fun v () (_ BitVec 8)) (declare-const w (_ BitVec 8))
+(assert (bvult v (bvadd w (_ bv1 8))))` — `logicOK "QF_BV"` is false, the standard accepts the script, and the parser
+model returns the four commands with the assertion of exactly the standard's term. -/
+theorem qf_bv_script :
+    Agree.logicOK "QF_BV" = false ∧
+    script PEnv.init (Agree.BVScript.cs ++ [.list [.atom "assert", Agree.BVScript.asrt]])
+      = .ok [.setLogic (some "QF_BV"), .declare "declare-fun" Agree.BVScript.vS,
+             .declare "declare-const" Agree.BVScript.wS, .assert Agree.BVScript.tU] ∧
+    Std.readStd Agree.BVScript.st.env [] Agree.BVScript.asrt = .ok Agree.BVScript.tU ∧
+    Agree.BVScript.tU.wf = true ∧ Agree.BVScript.tU.typeOf = some .bool :=
+  ⟨Agree.BVScript.logic_not_ok.1, Agree.BVScript.script_QF_BV⟩
+
+/-- the hypothesis `numFreeS` is needed: with the flag of QF_BV the parser reads the numeral `1` as a Real constant, the
+standard (logic `QF_BV`) as an Int constant -/
+example : readTerm { PEnv.init with intArith := some false } (.atom "1") = .ok (Term.real 1) ∧
+    Std.readStd { logic := "QF_BV" } [] (.atom "1") = .ok (Term.int 1) :=
+  ⟨Agree.BVScript.parser_reads_real, Agree.BVScript.std_reads_int.1⟩
+
+/-- the hypotheses of the script theorems are satisfiable: `Agree.exCs` has one command of every kind of the fragment
+(with a quoted name), the standard accepts it, and afterwards the formula manager is NOT empty -/
+example : Agree.declCmdsOK Agree.exRho Std.StdState.init Agree.exCs = true ∧ Std.runStd Agree.exCs = .ok Agree.exSt ∧
+    Agree.FragS Agree.exSt.env Agree.exRho Agree.exAsrt = true ∧ Agree.RotOK Agree.exSt.env [] Agree.exAsrt = true :=
+  ⟨Agree.exCs_ok, Agree.exSt_run, Agree.exAsrt_frag, Agree.exAsrt_rot⟩
+
 /-! ## non-vacuity -/
+
+/-- binder lists: `((x Int) (y Bool))` where `x` is a defined function of the enclosing scope and the manager knows
+`y : Int` — `x` shadows the definition, `y` becomes the fresh `y0` (so `quantifier_order` cannot say "named as written") -/
+example : ∃ Γ' vs, rdQuantBinds exEnv [] exBinders = .ok (Γ', vs) ∧ vs.map (·.name) = ["x", "y0"] ∧
+    (bindNames exBinders).Nodup :=
+  ⟨_, _, exBinders_run, by decide, by decide⟩
+
+/-- unknown names below applications: `(and p (not foo))`, `(f foo)`, `((_ extract 3 1) foo)` -/
+example : hasUnknownArg exEnv.binds (.list [.atom "and", .atom "p", .list [.atom "not", .atom "foo"]]) = true ∧
+    hasUnknownArg exEnv.binds (.list [.atom "f", .atom "foo"]) = true ∧
+    hasUnknownArg exEnv.binds (.list [.list [.atom "_", .atom "extract", .atom "3", .atom "1"], .atom "foo"]) = true ∧
+    hasUnknownArg exEnv.binds (.list [.atom "and", .atom "p", .atom "p"]) = false := by
+  decide +kernel
+
+/-- `notLiteralStrict` holds for ordinary names (with `_` too), fails for the tolerant literals of Python -/
+example : notLiteralStrict "foo_bar" ∧ ¬ notLiteralStrict "1_0" ∧ ¬ notLiteralStrict "\"abc\"" ∧ ¬ notLiteralStrict "٣" ∧
+    notLiteral "1_0" := by
+  decide +kernel
+
 
 /-- the fragment contains nested connectives over symbols -/
 example : Sound.PropFrag (.list [.atom "and", .atom "p", .list [.atom "not", .list [.atom "=>", .atom "q", .atom "true"]]])
